@@ -12,6 +12,16 @@ from common import Infra, NCPU, log, marker_json, require_ok, run_tlc, seed
 INVARIANTS = ["RequestsInOrder", "ResponsesInOrder", "WireOK", "ModesAgree", "AllArrive", "Emit"]
 
 
+def fault_configs(tier):
+    out = []
+    kinds = ["close-client", "close-server", "cancel", "drop"]
+    for rig in ("lib-lib", "lib-raw", "raw-lib"):
+        for modern in (True, False):
+            for auth in ((False,) if tier == "quick" else (False, True)):
+                out.append(dict(rig=rig, modern=modern, auth=auth, nreq=2, big=[], faults=kinds))
+    return out
+
+
 def configs(tier):
     out = []
     for rig in ("lib-lib", "lib-raw", "raw-lib"):
@@ -26,9 +36,9 @@ def configs(tier):
 
 def explore(scratch, cfg, name):
     with open(scratch.file(name + ".cfg"), "w") as f:
-        f.write("SPECIFICATION Spec\nCONSTANTS\n  Modern = %s\n  Auth = %s\n  Rig = \"%s\"\n  NReq = %d\n  BigFrames = {%s}\nINVARIANTS %s\nCHECK_DEADLOCK FALSE\n" % (
+        f.write("SPECIFICATION Spec\nCONSTANTS\n  Modern = %s\n  Auth = %s\n  Rig = \"%s\"\n  NReq = %d\n  BigFrames = {%s}\n  Faults = {%s}\nINVARIANTS %s\nCHECK_DEADLOCK FALSE\n" % (
             "TRUE" if cfg["modern"] else "FALSE", "TRUE" if cfg["auth"] else "FALSE", cfg["rig"], cfg["nreq"],
-            ", ".join(str(b) for b in cfg["big"]), " ".join(INVARIANTS)))
+            ", ".join(str(b) for b in cfg["big"]), ", ".join('"%s"' % k for k in cfg.get("faults", [])), " ".join(INVARIANTS)))
     raw = scratch.file(name + ".raw")
     res = require_ok(run_tlc(scratch, "Conn", cfg=name + ".cfg", marker='"SESSION"', outfile=raw, timeout=3000, workers=4), "Conn " + name)
     path = scratch.file(name + ".ndjson")
@@ -71,10 +81,10 @@ def replay(scratch, testbin, cfg, sessions, shards=8):
     return reps, crashes
 
 
-def run_conn(scratch, tier, testbin):
+def run_conn(scratch, tier, testbin, faults=False):
     out = dict(states=0, transitions=0, sessions=0, evaluations=0, distinct=0, violations=[], samples=[], runs=[])
-    for cfg in configs(tier):
-        name = "conn-%s-%s-%s" % (cfg["rig"], "modern" if cfg["modern"] else "legacy", "auth" if cfg["auth"] else "noauth")
+    for cfg in (fault_configs(tier) if faults else configs(tier)):
+        name = "conn-%s-%s-%s%s" % (cfg["rig"], "modern" if cfg["modern"] else "legacy", "auth" if cfg["auth"] else "noauth", "-faults" if faults else "")
         path, res, n = explore(scratch, cfg, name)
         out["states"] += res.distinct
         out["transitions"] += res.generated
